@@ -24,8 +24,8 @@ pub fn check() -> Check {
 
 fn plan(tier: Tier) -> Vec<Workload> {
     vec![
-        Workload::new("programs", tier.pick(30_000, 600_000)),
-        Workload::new("placements", tier.pick(4_000, 60_000)),
+        Workload::new("programs", tier.pick(150_000, 3_000_000)),
+        Workload::new("placements", tier.pick(20_000, 300_000)),
     ]
 }
 
